@@ -128,24 +128,26 @@ func VerifC02Pair() { verifC02Pair(1) }
 func VerifC02Pair2() { verifC02Pair(2) }
 
 func verifC02Pair(maxVal int) {
-	fv := vFormat()
+	// every snapshot carries its own format version (instances run different releases)
+	fva := vFormat()
+	fvb := uint32(1 + zz.Choice("fvb", 3))
 	a := vNondetIncoming("a", maxVal)
 	b := vNondetIncoming("b", maxVal)
-	sa := vMerge(nil, a, fv, 0, 0, false)
-	sb := vMerge(nil, b, fv, 0, 0, false)
+	sa := vMerge(nil, a, fva, 0, 0, false)
+	sb := vMerge(nil, b, fvb, 0, 0, false)
 	zz.Assert(sa != nil && sb != nil, "C02/absent-add")
 	if sa == nil || sb == nil {
 		return
 	}
-	saa := vMerge(sa, a, fv, 0, 0, false)
+	saa := vMerge(sa, a, fva, 0, 0, false)
 	zz.Assert(bytes.Equal(saa, sa), "C02/idempotent")
-	sab := vMerge(sa, b, fv, 0, 0, false)
-	sba := vMerge(sb, a, fv, 0, 0, false)
+	sab := vMerge(sa, b, fvb, 0, 0, false)
+	sba := vMerge(sb, a, fva, 0, 0, false)
 	same := vSameLogical(sab, sba)
 	// known finding F3 is the equal-timestamp case with deleted vs. live-empty
 	eqts := a.ts == b.ts
 	zz.Assert(zz.Or(eqts, same), "C02/commute/different-ts")
-	tie := zz.And(eqts, a.deleted(fv) != b.deleted(fv))
+	tie := zz.And(eqts, a.deleted(fva) != b.deleted(fvb))
 	zz.Assert(zz.Or(!eqts, zz.Or(tie, same)), "C02/commute/equal-ts-same-liveness")
 	zz.Assert(zz.Or(!tie, same), "C02/commute/equal-ts-deleted-vs-live")
 	zz.Reach("C02/pair/end")
@@ -154,7 +156,7 @@ func verifC02Pair(maxVal int) {
 // VerifC02Triple: all six merge orders of three versions agree (associativity +
 // commutativity at the level of logical content), cutoff 0.
 func VerifC02Triple() {
-	fv := vFormat()
+	fvs := []uint32{vFormat(), uint32(1 + zz.Choice("fvb", 3)), uint32(1 + zz.Choice("fvc", 3))}
 	vs := []vIncoming{vNondetIncoming("a", 1), vNondetIncoming("b", 1), vNondetIncoming("c", 1)}
 	orders := [][3]int{{0, 1, 2}, {0, 2, 1}, {1, 0, 2}, {1, 2, 0}, {2, 0, 1}, {2, 1, 0}}
 	var first []byte
@@ -162,7 +164,7 @@ func VerifC02Triple() {
 	for i, o := range orders {
 		var s []byte
 		for _, k := range o {
-			s = vMerge(s, vs[k], fv, 0, 0, false)
+			s = vMerge(s, vs[k], fvs[k], 0, 0, false)
 		}
 		if i == 0 {
 			first = s
@@ -174,7 +176,7 @@ func VerifC02Triple() {
 	tie := false
 	for i := 0; i < 3; i++ {
 		for j := i + 1; j < 3; j++ {
-			tie = zz.Or(tie, zz.And(vs[i].ts == vs[j].ts, vs[i].deleted(fv) != vs[j].deleted(fv)))
+			tie = zz.Or(tie, zz.And(vs[i].ts == vs[j].ts, vs[i].deleted(fvs[i]) != vs[j].deleted(fvs[j])))
 		}
 	}
 	zz.Assert(zz.Or(tie, allSame), "C02/orders/no-liveness-tie")
